@@ -4,6 +4,7 @@ import (
 	"fmt"
 	"go/token"
 	"go/types"
+	"sort"
 
 	"golang.org/x/tools/go/ssa"
 )
@@ -26,7 +27,10 @@ func init() {
 			{ID: "R15d", Floor: 4, Doc: "every CARv2 header written by the traversal writers follows the pragma / sits at the pragma offset (= R19a)", Run: func(c *Ctx, r *Report) { headerWritesFollowPragma(c, r, map[string]bool{modV2: true, pkgStore: true}) }},
 			{ID: "R15e", Floor: 1, Doc: "TraverseToFile fixes the header up with the same routine that wrote it (options applied identically)", Run: ruleR15e},
 			{ID: "R15f", Floor: 2, Doc: "zero padding is emitted in exactly the announced amount: one Write of a buffer allocated with the padding length, or — when chunked in a loop — every chunk cut to the remaining count", Run: ruleR15f},
+			{ID: "R15g", Floor: 2, Doc: "one CID per section: in the root module's selective traverser and Dump, the CID whose bytes are sized (LdSize) is the CID that is reported in Block.BlockCID and written (LdWrite) — sizing the stored block's own CID while emitting the requested link's CID shifts every later offset when a store answers a CIDv1 request with a CIDv0 block", Run: ruleR15g},
+			{ID: "R15h", Floor: 1, Doc: "traversalCar.WriteTo reports what reached the writer: every return after the payload pass (successful or not) includes the byte count of that pass", Run: ruleR15h},
 			{ID: "R15c", Floor: 1, Doc: "size-mismatch guard", Run: ruleR15c},
+			{ID: "R15i", Floor: 8, Doc: "the announced section size and the written framing come from the same length formula (= R01b)", Run: ruleR01b},
 		},
 	})
 }
@@ -641,4 +645,130 @@ func ruleR15e(c *Ctx, r *Report) {
 		}
 	}
 	r.Check(bad == "", key, c.Pos(fn.Pos()), "WriteTo; Seek(0,0); WriteV2Header", bad)
+}
+
+func ruleR15g(c *Ctx, r *Report) {
+	cidOfBytes := func(v ssa.Value) ssa.Value {
+		cl, _ := callOf(canon(v))
+		if cl == nil || !funcIs(calleeFunc(cl.Common()), pkgCid, "Cid", "Bytes") {
+			return nil
+		}
+		return canon(callArgs(cl.Common())[0])
+	}
+	for _, sp := range []fnSpec{{modRoot, "selectiveCarTraverser", "loader"}, {modRoot, "SelectiveCarPrepared", "Dump"}} {
+		fn, err := c.Func(sp.pkg, sp.recv, sp.name)
+		if err != nil {
+			r.InfraFail("%v", err)
+			continue
+		}
+		key := "one-cid-per-section@" + fnKey(fn)
+		var sized, emitted []ssa.Value
+		for _, ci := range callsToFunc(fn, pkgRootUtil, "", "LdSize") {
+			if el := varargElems(ci.Common().Args[0]); len(el) > 0 {
+				if v := cidOfBytes(el[0]); v != nil {
+					sized = append(sized, v)
+				}
+			}
+		}
+		for _, ci := range callsToFunc(fn, pkgRootUtil, "", "LdWrite") {
+			if el := varargElems(ci.Common().Args[1]); len(el) > 0 {
+				if v := cidOfBytes(el[0]); v != nil {
+					emitted = append(emitted, v)
+				}
+			}
+		}
+		// Block{BlockCID: c}
+		eachInstr(fn, func(in ssa.Instruction) {
+			if st, ok := in.(*ssa.Store); ok {
+				if fa, ok := st.Addr.(*ssa.FieldAddr); ok {
+					if fv := fieldVar(fa.X.Type(), fa.Field); fv != nil && fv.Name() == "BlockCID" {
+						emitted = append(emitted, canon(st.Val))
+					}
+				}
+			}
+		})
+		if len(sized) == 0 || len(emitted) == 0 {
+			r.Undec(key, c.Pos(fn.Pos()), fmt.Sprintf("LdSize over a CID's bytes (%d) or the emission of a CID (%d) not found", len(sized), len(emitted)))
+			continue
+		}
+		bad := ""
+		for _, s := range sized {
+			for _, e := range emitted {
+				if s != e {
+					bad = "the section is sized with the bytes of one CID value and reported/written with another: when the store hands back the block under a different CID than the link asked for (CIDv0 vs CIDv1), Size, every later Offset and the prepared total are off"
+				}
+			}
+		}
+		r.Check(bad == "", key, c.Pos(fn.Pos()), "sized and emitted with the same CID value", bad)
+	}
+}
+
+// varargElems: the values stored into the backing array of a variadic argument slice.
+func varargElems(v ssa.Value) []ssa.Value {
+	sl, ok := v.(*ssa.Slice)
+	if !ok {
+		return nil
+	}
+	al, ok := sl.X.(*ssa.Alloc)
+	if !ok {
+		return nil
+	}
+	type el struct {
+		idx int64
+		v   ssa.Value
+	}
+	var els []el
+	for _, ref := range *al.Referrers() {
+		if ia, ok := ref.(*ssa.IndexAddr); ok {
+			k, _ := constInt(ia.Index)
+			for _, st := range storesTo(ia) {
+				els = append(els, el{k, st.Val})
+			}
+		}
+	}
+	sort.Slice(els, func(i, j int) bool { return els[i].idx < els[j].idx })
+	var out []ssa.Value
+	for _, e := range els {
+		out = append(out, e.v)
+	}
+	return out
+}
+
+func ruleR15h(c *Ctx, r *Report) {
+	fn, err := c.Func(modV2, "traversalCar", "WriteTo")
+	if err != nil {
+		r.InfraFail("%v", err)
+		return
+	}
+	key := "count-includes-payload@" + fnKey(fn)
+	calls := callsToFunc(fn, modV2, "traversalCar", "WriteV1")
+	if len(calls) != 1 {
+		r.Undec(key, c.Pos(fn.Pos()), "expected one WriteV1 call")
+		return
+	}
+	cv := calls[0].Value()
+	after := reach(fn, calls[0].Block(), nil)
+	bad := ""
+	n := 0
+	for _, ret := range returnsOf(fn) {
+		if !after[ret.Block()] || len(ret.Results) == 0 {
+			continue
+		}
+		if ret.Block() == calls[0].Block() && instrIndex(ret) < instrIndex(calls[0].(ssa.Instruction)) {
+			continue
+		}
+		n++
+		has := false
+		for _, o := range origins(retResult(ret, 0), originOpts{binops: true}) {
+			if o.Kind == "call" {
+				if cl, _ := callOf(o.Val); cl == cv {
+					has = true
+				}
+			}
+		}
+		if !has {
+			bad = fmt.Sprintf("the count returned at %s leaves out the bytes the payload pass wrote: after a failure in that pass the caller is told fewer bytes reached the destination than did", c.Pos(ret.Pos()))
+		}
+	}
+	r.Check(bad == "", key, c.Pos(calls[0].Pos()), fmt.Sprintf("%d return(s) after the payload pass, each including its byte count", n), bad)
 }
